@@ -5,6 +5,9 @@ use refimpl::server::ServerProfile;
 use refimpl::wire::{self, DemandActive, License};
 
 pub fn gen_ccrsp(s: &mut Src, selected: u32) -> CcRsp {
+    // SC_SECURITY in its long form with both optional lengths zero (MS-RDPBCGR 2.2.1.4.3 allows the fields when nothing is
+    // selected; their content is to be ignored)
+    let sec_long = s.chance(48);
     let version = s.pick(&[0x00080004u32, 0x00080001, 0x00080004, 0x00080005, 0x00080006, 0x00080007, 0x00080008, 0x00080009, 0x0008000A, 0x0008000B, 0x0008000C, 0x0008000D, 0x0008000E, 0x0008000F, 0x00080010, 0x00080011, 0, 0xFFFFFFFF]);
     let version = if s.chance(16) { s.u32() } else { version };
     let core = match s.below(3) {
@@ -15,7 +18,8 @@ pub fn gen_ccrsp(s: &mut Src, selected: u32) -> CcRsp {
     let n = s.small(31);
     let ids: Vec<u16> = (0..n).map(|i| 1004 + i as u16).collect();
     let pad = if n % 2 == 1 { !s.chance(32) } else { s.chance(16) };
-    let mut blocks = vec![core, ScBlock::Security { method: 0, level: 0 }, ScBlock::Net { io_channel: 1003, ids, pad }];
+    let sec = if sec_long { ScBlock::SecurityFull { method: 0, level: 0, random: vec![], cert: vec![] } } else { ScBlock::Security { method: 0, level: 0 } };
+    let mut blocks = vec![core, sec, ScBlock::Net { io_channel: 1003, ids, pad }];
     let p = s.below(6);
     let perm = [[0, 1, 2], [0, 2, 1], [1, 0, 2], [1, 2, 0], [2, 0, 1], [2, 1, 0]][p];
     blocks = perm.iter().map(|i| blocks[*i].clone()).collect();
